@@ -1,6 +1,7 @@
 package main
 
 import (
+	"unicode/utf8"
 	"fmt"
 	"go/types"
 	"unicode"
@@ -115,8 +116,31 @@ func (m *Machine) utf8Len(r *Term) *Term {
 			c.Ite(c.Ult(r, mkBV(32, 0x10000)), mkInt(64, 3), last)))
 }
 
+// byteOrig: the term is byte j of the n-byte encoding of rune r (on this path).
+type byteOrig struct {
+	r    *Term
+	j, n int
+}
+
 // runeBytes returns the UTF-8 bytes (BV8 terms) of rune r, forking on its length class.
 func (m *Machine) runeBytes(r *Term) []*Term {
+	out := m.runeBytes0(r)
+	if !r.IsConst() {
+		if m.byteOrigin == nil {
+			m.byteOrigin = map[*Term]byteOrig{}
+		}
+		for j, b := range out {
+			if !b.IsConst() {
+				if _, dup := m.byteOrigin[b]; !dup {
+					m.byteOrigin[b] = byteOrig{r, j, len(out)}
+				}
+			}
+		}
+	}
+	return out
+}
+
+func (m *Machine) runeBytes0(r *Term) []*Term {
 	c := m.ctx
 	n := m.concretize(m.utf8Len(r), 4, "UTF-8 length of a rune")
 	r = m.simplify(r)
@@ -138,8 +162,144 @@ func (m *Machine) runeBytes(r *Term) []*Term {
 	return []*Term{c.BOr(b(sh(18)), mkBV(8, 0xF0)), cont(sh(12)), cont(sh(6)), cont(r)}
 }
 
+// bytesToStr turns a byte sequence into a rune-string: bytes that are, in
+// order, the complete encoding of one rune (constant bytes by decoding,
+// symbolic ones by their recorded origin) become that rune; any other byte
+// stays a lone byte (pseudo-rune).
+func (m *Machine) bytesToStr(bs []*Term) Str {
+	var out []*Term
+	i := 0
+	for i < len(bs) {
+		b := m.simplify(bs[i])
+		if b.IsConst() {
+			// maximal constant run
+			j := i
+			var raw []byte
+			for j < len(bs) {
+				t := m.simplify(bs[j])
+				if !t.IsConst() {
+					break
+				}
+				raw = append(raw, byte(t.U))
+				j++
+			}
+			// an incomplete sequence at the end of the run stays lone bytes
+			for k := 0; k < len(raw); {
+				r, sz := utf8.DecodeRune(raw[k:])
+				if r == utf8.RuneError && sz <= 1 {
+					out = append(out, mkBV(32, pseudoBase+uint64(raw[k])))
+					k++
+					continue
+				}
+				out = append(out, mkBV(32, uint64(uint32(r))))
+				k += sz
+			}
+			i = j
+			continue
+		}
+		if o, ok := m.byteOrigin[bs[i]]; ok && o.j == 0 && i+o.n <= len(bs) {
+			all := true
+			for k := 1; k < o.n; k++ {
+				o2, ok2 := m.byteOrigin[bs[i+k]]
+				if !ok2 || o2.r != o.r || o2.j != k || o2.n != o.n {
+					all = false
+					break
+				}
+			}
+			if all {
+				out = append(out, o.r)
+				i += o.n
+				continue
+			}
+		}
+		out = append(out, m.pseudoRune(bs[i]))
+		i++
+	}
+	return Str{R: out}
+}
+
 func (m *Machine) pseudoRune(b *Term) *Term {
-	return m.ctx.Add(mkBV(32, pseudoBase), m.ctx.Resize(b, 32, false))
+	t := m.ctx.Add(mkBV(32, pseudoBase), m.ctx.Resize(b, 32, false))
+	if !t.IsConst() {
+		if m.pseudoOf == nil {
+			m.pseudoOf = map[*Term]*Term{}
+		}
+		m.pseudoOf[t] = b
+	}
+	return t
+}
+
+// loneByte: the byte term of a lone-byte pseudo-rune.
+func (m *Machine) loneByte(t *Term) (*Term, bool) {
+	if t.IsConst() {
+		if t.U >= pseudoBase {
+			return mkBV(8, t.U-pseudoBase), true
+		}
+		return nil, false
+	}
+	b, ok := m.pseudoOf[t]
+	return b, ok
+}
+
+// joinStr concatenates two rune-strings; lone bytes that meet at the seam are
+// re-fused into the character they complete.
+func (m *Machine) joinStr(a, b Str) Str {
+	i := len(a.R)
+	var bs []*Term
+	for i > 0 && len(a.R)-i < 3 {
+		ob, ok := m.loneByte(a.R[i-1])
+		if !ok {
+			break
+		}
+		bs = append([]*Term{ob}, bs...)
+		i--
+	}
+	j := 0
+	nl := len(bs)
+	if nl > 0 {
+		for j < len(b.R) && j < 3 {
+			ob, ok := m.loneByte(b.R[j])
+			if !ok {
+				break
+			}
+			bs = append(bs, ob)
+			j++
+		}
+	}
+	out := make([]*Term, 0, len(a.R)+len(b.R))
+	if nl > 0 && j > 0 {
+		out = append(out, a.R[:i]...)
+		out = append(out, m.bytesToStr(bs).R...)
+		out = append(out, b.R[j:]...)
+	} else {
+		out = append(out, a.R...)
+		out = append(out, b.R...)
+	}
+	return Str{R: out}
+}
+
+// appendByte appends one byte to a rune-string, re-fusing it with the lone
+// bytes that end the string when together they complete a character.
+func (m *Machine) appendByte(s Str, b *Term) Str {
+	k := len(s.R)
+	var bs []*Term
+	for k > 0 && len(s.R)-k < 3 {
+		t := s.R[k-1]
+		if t.IsConst() && t.U >= pseudoBase {
+			bs = append([]*Term{mkBV(8, t.U-pseudoBase)}, bs...)
+		} else if ob, ok := m.pseudoOf[t]; ok {
+			bs = append([]*Term{ob}, bs...)
+		} else {
+			break
+		}
+		k--
+	}
+	bs = append(bs, b)
+	tail := m.bytesToStr(bs)
+	out := make([]*Term, 0, k+len(tail.R))
+	out = append(out, s.R[:k]...)
+	out = append(out, tail.R...)
+	return Str{R: out}
 }
 
 // strSlice implements s[lo:hi] with byte offsets on a rune-string.
